@@ -167,13 +167,13 @@ def py_class_name(path_names) -> str:
     return "_".join(path_names)
 
 
-def set_leaf(obj, leaf: Leaf, v: int, enum_as_member=False, module=None):
+def set_leaf(obj, leaf: Leaf, v: int, enum_as_member=False, module=None, raw=False):
     cur = obj
     steps = leaf.path
     for kind, key in steps[:-1]:
         cur = getattr(cur, key) if kind == "f" else cur[key]
     kind, key = steps[-1]
-    if leaf.kind == "bool":
+    if leaf.kind == "bool" and not raw:
         val: Any = bool(v)
     else:
         val = int(v)
